@@ -11,7 +11,7 @@ def _boom(*a):
     raise RuntimeError("boom")
 
 
-PATTERNS = ["a", "^ab", "b+", r"\S+", r"\s+"]      # the last two differ only in the CASE of an escape letter and mean opposite things
+PATTERNS = ["a", "^ab", "b+", r"\S+", r"\s+", "(?i)ab"]      # (\S+ / \s+) differ only in the CASE of an escape letter and mean opposite things
 FLAGS = [0, int(re.IGNORECASE)]
 
 MAPS = [
